@@ -439,6 +439,12 @@ impl Report {
         for (k, v) in &self.acc.extra {
             coverage.insert(k.clone(), v.clone());
         }
+        // set by ./check: the saved cases of repaired defects of this property that were replayed (without a
+        // violation) before this run
+        if let Ok(list) = std::env::var("VERIF_REGRESSION_REPLAYS") {
+            let files: Vec<&str> = list.split(':').filter(|s| !s.is_empty()).collect();
+            coverage.insert("regression_replays".into(), json!(files));
+        }
         let ev = json!({
             "property_id": self.property,
             "tier": self.tier.name(),
